@@ -254,6 +254,25 @@ func cmdCheck(args []string) {
 				retried++
 			}
 		}
+		// last resort on a badly overloaded machine: one more attempt, strictly one obligation at a time, within a
+		// total budget of 15 minutes
+		tRetry := time.Now()
+		for _, r := range results {
+			if r == nil || r.err != nil || r.vc == nil {
+				continue
+			}
+			for _, o := range r.vc.obligs {
+				if o.Status == "unsat" || o.Status == "sat" || o.Status == "skipped" || !claimedSet[obKey(o)] {
+					continue
+				}
+				if time.Since(tRetry) > 15*time.Minute {
+					break
+				}
+				sub := &VC{P: P, tt: r.vc.tt, items: r.vc.items, obligs: []*Oblig{o}}
+				sub.dischargeWith(30*timeout, 3, "", nil)
+				retried++
+			}
+		}
 	}
 
 	// collect obligations
